@@ -154,9 +154,62 @@ def gen_data(kind, N, D, k, seed):
         pos = [0.0, 1.0, 2.5]
         ctr = [[pos[c] * u[j] + 0.05 * rng.gauss(0, 1) for j in range(D)] for c in range(3)]
         X = [[ctr[lab[i]][j] + CLUSTER_SIGMA * rng.gauss(0, 1) for j in range(D)] for i in range(N)]
+    elif kind == "pairs":                 # N/2 twin pairs 1e-3 apart, the pairs O(1) apart; WHO is whose twin is irregular
+        tw = pair_partners(N, seed)
+        ctr = {}
+        X = [None] * N
+        for i in range(N):
+            a = min(i, tw[i])
+            if a not in ctr:
+                ctr[a] = [rng.gauss(0, 1) for _ in range(D)]
+            X[i] = [ctr[a][j] + CLUSTER_SIGMA * rng.gauss(0, 1) for j in range(D)]
+    elif kind == "curve":                 # a gently bent arc (1-D manifold), the samples in IRREGULAR order along it
+        t = curve_params(N, seed)
+        Q = [[rng.gauss(0, 1) for _ in range(D)] for _ in range(3)]
+        if D:                             # the FIRST coordinate is monotone along the arc (PassThru, ManifoldSculpting keep it)
+            Q[0][0] = math.copysign(max(abs(Q[0][0]), 1.0), Q[0][0])
+            Q[1][0] *= 0.3
+            Q[2][0] *= 0.3
+        X = [[t[i] * Q[0][j] + 0.3 * t[i] * t[i] * Q[1][j] + 0.1 * t[i] ** 3 * Q[2][j] for j in range(D)] for i in range(N)]
     else:
         raise ValueError(kind)
     return X
+
+
+def pair_partners(N, seed):
+    """twin of each sample of the `pairs` kind: a random perfect matching of the sample indices (an odd sample out is its
+    own twin), deterministic in (N, seed)"""
+    rng = random.Random("pair-partners/%d/%d" % (N, seed))
+    order = list(range(N))
+    rng.shuffle(order)
+    tw = list(range(N))
+    for a, b in zip(order[0::2], order[1::2]):
+        tw[a], tw[b] = b, a
+    return tw
+
+
+def curve_params(N, seed):
+    """arc parameter of each sample of the `curve` kind: jittered grid positions in [0, 1], assigned to the sample
+    indices in a shuffled order, deterministic in (N, seed)"""
+    rng = random.Random("curve-params/%d/%d" % (N, seed))
+    t = [(i + 0.5 + 0.6 * (rng.random() - 0.5)) / max(N, 1) for i in range(N)]
+    rng.shuffle(t)
+    return t
+
+
+def spearman(a, b):
+    def ranks(v):
+        o = sorted(range(len(v)), key=lambda i: v[i])
+        r = [0] * len(v)
+        for k, i in enumerate(o):
+            r[i] = k
+        return r
+    ra, rb = ranks(a), ranks(b)
+    n = len(a)
+    if n < 3:
+        return 1.0
+    d2 = sum((x - y) ** 2 for x, y in zip(ra, rb))
+    return 1.0 - 6.0 * d2 / (n * (n * n - 1))
 
 
 CLUSTER_SIGMA = 1e-3
@@ -656,6 +709,50 @@ ROW_CLUSTER_EXCLUDED = {
     "ms": "ManifoldSculpting keeps the first d coordinates and squishes the others with a stochastic hill climb; the "
           "centre line need not lie in the kept coordinates",
 }
+# The ORDER oracle (kind `curve`: samples on a gently bent arc, visited in an irregular order by the sample index;
+# target_dimension 1): the returned coordinate must be a monotone function of the arc parameter, |Spearman rho| >= 0.9
+# (on /repo HEAD: >= 0.9989 for all 16 methods over 582 requests).  Required for:
+ROW_CURVE_WHY = {
+    "klle": "one-dimensional manifold, k = 6 neighbours on the arc: the bottom non-constant eigenvector of (I-W)^T (I-W) is the arc coordinate",
+    "kltsa": "aligned local tangent coordinates of a curve = its arc length up to an affine map",
+    "hlle": "the null space of the Hessian functional on a curve is spanned by 1 and the arc length",
+    "npe": "linear LLE: the projection direction that preserves the local reconstructions of a gently bent arc is along it",
+    "lltsa": "linear LTSA: as NPE",
+    "la": "the Fiedler vector of a path-like neighbourhood graph is monotone along the path",
+    "lpp": "linear LaplacianEigenmaps: on an arc the smoothest direction relative to the variance is along the arc",
+    "dm": "first non-trivial diffusion coordinate of a path-like graph is monotone",
+    "isomap": "geodesic distance along the arc, one-dimensional classical scaling",
+    "lisomap": "as Isomap on the landmark columns",
+    "mds": "first principal coordinate of a gently bent arc (curvature terms 0.3 t^2, 0.1 t^3 against t) is monotone in t",
+    "lmds": "as MDS, landmarks spread along the arc",
+    "kpca": "linear kernel: as MDS",
+    "pca": "first principal direction of the arc",
+    "fa": "one factor: a linear functional of the centred sample dominated by the arc direction",
+    "passthru": "the first feature is monotone along the arc by construction of the data",
+}
+ROW_CURVE_EXCLUDED = {
+    "ms": "the stochastic hill climb on the kept coordinate scrambles neighbouring samples locally (rho 0.888 observed once in 36 "
+          "requests on /repo HEAD, >= 0.999 otherwise): too close to the threshold to be required",
+    "ra": "a random direction can be nearly orthogonal to the arc (rho 0.72 observed); covered by the projection oracle",
+    "spe": "one-dimensional stochastic descent folds the arc (rho 0.06 .. 0.4 observed on /repo HEAD)",
+    "tsne": "one-dimensional t-SNE breaks the arc into pieces (rho 0.06 .. 0.3 observed on /repo HEAD); no row-order oracle "
+            "holds for t-SNE on /repo HEAD: the cluster, nearest-row and twin-pair oracles were tried and fail there",
+}
+
+
+def row_curve_expected(c):
+    m, N, d, k, p = c["m"], c["N"], c["d"], c["k"], c["p"]
+    if c["kind"] != "curve" or m not in ROW_CURVE_WHY or d != 1 or N < 10:
+        return False
+    if m in EIGEN and c["em"] != "dense":
+        return False
+    if m in USES_NB and not (4 <= k <= 8 and p.get("cc", 1)):
+        return False
+    if m in ("la", "lpp", "dm") and not (0.01 <= p.get("width", 1.0) <= 0.25):
+        return False
+    return scalars_ok(c)
+
+
 ROW_ISOMETRIC = {"mds", "kpca", "pca", "lmds", "isomap", "lisomap"}
 
 
@@ -697,7 +794,7 @@ def judge_rows(ctx, c, real, where, stats):
     if not E or real.get("nonfinite") or len(E) != c["N"]:
         return False
     X = data_of(c)
-    rs = stats.setdefault("rows", {"cluster": {}, "isometry": {}, "projection": {}, "not_expected": {}})
+    rs = stats.setdefault("rows", {"cluster": {}, "order": {}, "isometry": {}, "projection": {}, "not_expected": {}})
     if "P" in real:
         rs["projection"][c["m"]] = rs["projection"].get(c["m"], 0) + 1
         P = real["P"]
@@ -724,6 +821,18 @@ def judge_rows(ctx, c, real, where, stats):
                                       "".join(str(x) for x in lab), i, intra, inter, where))
             return True
     elif c["kind"] == "clusters":
+        rs["not_expected"][c["m"]] = rs["not_expected"].get(c["m"], 0) + 1
+    if row_curve_expected(c):
+        rs["order"][c["m"]] = rs["order"].get(c["m"], 0) + 1
+        t = curve_params(c["N"], c["seed"])
+        rho = spearman([row[0] for row in E], t)
+        if not abs(rho) >= 0.9:
+            ctx.violation(pub(c), "rows do not describe the samples in input order: the samples lie on a gently bent arc (visited in "
+                                  "an irregular order by the sample index) and %s with target_dimension 1 recovers the position "
+                                  "along it, but the rank correlation between the returned coordinate of row i and the arc "
+                                  "parameter of sample i is %.3f [%s]" % (c["m"], rho, where))
+            return True
+    elif c["kind"] == "curve":
         rs["not_expected"][c["m"]] = rs["not_expected"].get(c["m"], 0) + 1
     return False
 
@@ -1169,6 +1278,17 @@ def row_cases(rng, start_id, quick):
                 add(m, N=N, D=1, d=1, k=N - 1, **({"lr": 1.0} if m in ("lmds", "lisomap") else {}))
                 if m in ("mds", "kpca", "isomap", "lmds"):
                     add(m, N=N, D=2, d=N - 1, k=N - 1, **({"lr": 1.0} if m == "lmds" else {}))   # the maximum
+    # the order oracle: every method on the arc, target_dimension 1 (the local methods have no cluster oracle)
+    for N in ([12, 20] if quick else [12, 20, 30, 50]):
+        for m in METHODS:
+            over = {"width": 0.05} if m in ("la", "lpp", "dm") else {}
+            if m == "tsne":
+                over = {"perp": min(3.0, (N - 1) / 3.0 - 0.1)}
+            nms = ["brute"] if m not in USES_NB else (["brute", "covertree"] if N == 12 else ["vptree"])
+            for nm in nms:
+                for lr in ([1.0, 0.5] if m in ("lmds", "lisomap") and nm == nms[0] else [None]):
+                    o = dict(over) if lr is None else dict(over, lr=lr)
+                    add(m, N=N, d=1, k=6, nm=nm, kind="curve", **o)
     return out
 
 
@@ -1417,9 +1537,11 @@ def key_of(c):
 def build_all(ctx, with_coq=False):
     """the two C++ builds (70-100 s each, one TU) run in threads while the main thread does the Coq
     build (when asked) and the extraction, which share vlib's Coq lock"""
-    with concurrent.futures.ThreadPoolExecutor(max_workers=2) as ex:
+    with concurrent.futures.ThreadPoolExecutor(max_workers=3) as ex:
         f_san = ex.submit(ctx.cpp, "harness/c01.cpp", "c01_san", (), True, False, ["-O0", "-g0"])
         f_dbg = ex.submit(ctx.cpp, "harness/c01.cpp", "c01_dbg", (), False, True, ["-O0"])
+        # the same driver with the index range in a std::deque filled from both ends (two blocks: not contiguous)
+        f_deq = ex.submit(ctx.cpp, "harness/c01.cpp", "c01_deq", ("C01_RANGE_DEQUE",), True, False, ["-O0", "-g0"])
         errs = []
         coq = mexe = None
         try:
@@ -1429,7 +1551,7 @@ def build_all(ctx, with_coq=False):
         except vlib.BuildError as e:
             errs.append(e)
         res = []
-        for f in (f_san, f_dbg):
+        for f in (f_san, f_dbg, f_deq):
             try:
                 res.append(f.result())
             except vlib.BuildError as e:
@@ -1437,20 +1559,34 @@ def build_all(ctx, with_coq=False):
                 res.append(None)
         if errs:
             raise errs[0]
-    return {"san": res[0], "dbg": res[1]}, mexe
+    return {"san": res[0], "dbg": res[1], "deq": res[2]}, mexe
+
+
+def split_exes(exes):
+    """-> (the two builds every request runs in, the deque-range build)"""
+    return {b: e for b, e in exes.items() if b != "deq"}, {"deq": exes["deq"]}
+
+
+def deque_cases(cases, start_id):
+    """copies of row-order requests for the build whose index range is a two-block std::deque"""
+    out = []
+    for i, c in enumerate(cases):
+        out.append(dict(c, id=start_id + i, p=dict(c["p"], range="deque")))
+    return out
 
 
 def run(ctx):
     rng = ctx.rng
     texts, tstatus = translate_all(ctx)
-    exes, mexe = build_all(ctx, with_coq=True)
+    exes3, mexe = build_all(ctx, with_coq=True)
     for attempt in range(2):
         if tables_in_place(ctx, texts):
             break
         ctx.note("the generated tables were rewritten by a concurrent run: regenerating and rebuilding")
         ctx._unshown[:] = [u for u in ctx._unshown if not u.startswith("proof obligations")]
         texts, tstatus = translate_all(ctx)
-        exes, mexe = build_all(ctx, with_coq=True)
+        exes3, mexe = build_all(ctx, with_coq=True)
+    exes, exe_deq = split_exes(exes3)
     unreadable = {k: v for k, v in tstatus.items() if v.startswith("unreadable")}
     for k, v in unreadable.items():
         ctx.note("tie T not renewed for table `%s` (%s): the statements are written in a form the translator does "
@@ -1484,6 +1620,12 @@ def run(ctx):
         results[b].update(results2[b])
     cases += deep
     npar = n_single_build = 0
+    dq = deque_cases([c for c in cases if c["p"].get("dump")], 96000)
+    model2, results2 = evaluate(ctx, exe_deq, mexe, dq, stats)
+    model.update(model2)
+    cases += dq
+    n_single_build += len(dq)
+    ndeque = len(dq)
     for i, (label, T, env_extra) in enumerate(PAR_ENVS):
         pc = par_cases(rng, 90000 + 1000 * i, T)
         npar += len(pc)
@@ -1512,7 +1654,8 @@ def run(ctx):
     distinct = {key_of(c) for c in cases if model[c["id"]]["cls"] in ("shape", "crash")}
     hist = {"generators": {"corpus": ncorpus, "boundary": nboundary - nhuge - nspecial - nrows, "huge_magnitude": nhuge,
                            "special_values": nspecial, "row_order": nrows, "random": nrandom, "large": nlarge,
-                           "in_parallel_region_twins": npar, "small_stack_large_N": len(deep)},
+                           "in_parallel_region_twins": npar, "small_stack_large_N": len(deep),
+                           "row_order_on_deque_range": ndeque},
             "translators": tstatus,
             "method": {}, "N": {}, "kind": {}, "neighbors_method": {}, "eigen_method": {}, "stats": stats}
     for c in cases:
@@ -1536,7 +1679,9 @@ def run(ctx):
                      "entries are sample indices): the harness dumps the real lists' lengths and feeds them to the model",
                      "scalar keyword predicates are evaluated in Python with the C++'s double expressions (C14)",
                      "F7 (known finding) is open: requests in the F7 zone are expected to crash and reported as KNOWN-FINDING"],
-        extra={"builds": ["sanitize(-O0 -g0)", "eigen_debug(-O0, no sanitizer)"], "watchdog_s": 10,
+        extra={"builds": ["sanitize(-O0 -g0)", "eigen_debug(-O0, no sanitizer)",
+                          "sanitize(-O0 -g0) with the index range in a two-block std::deque (row-order stream only)"],
+               "watchdog_s": 10,
                "obligation_files": ["coq/gen/ShapesSrc.v (regenerated)", "coq/gen/Validate_C01.v (regenerated)",
                                     "coq/gen/EigSelect_C01.v (regenerated)", "coq/Properties_C01.v"],
                "finiteness_clause": {"status": "TEST (not proved)", "checked_by_method": stats_fin,
@@ -1547,6 +1692,8 @@ def run(ctx):
                    "checked": stats.get("rows", {}),
                    "cluster_oracle_required_for": ROW_CLUSTER_WHY,
                    "cluster_oracle_not_expected_for": ROW_CLUSTER_EXCLUDED,
+                   "order_oracle_required_for": ROW_CURVE_WHY,
+                   "order_oracle_not_expected_for": ROW_CURVE_EXCLUDED,
                    "isometry_oracle": "mds kpca pca lmds isomap(k=N-1) lisomap(k=N-1, ratio 1) with target_dimension >= D, "
                                       "dense solver: every pairwise distance of the rows equals that of the samples (1e-6 rel.)",
                    "projection_oracle": "pca ra npe lpp lltsa: row i == returned projecting function applied to sample i (1e-7 rel.)"}})
@@ -1554,7 +1701,10 @@ def run(ctx):
 
 def replay(ctx, case):
     translate_all(ctx)
-    exes, mexe = build_all(ctx)
+    exes3, mexe = build_all(ctx)
+    exes, exe_deq = split_exes(exes3)
+    if (case.get("p") or {}).get("range") == "deque":
+        exes = exe_deq
     c = dict(case)
     c.setdefault("p", {})
     c.setdefault("seed", 1)
@@ -1570,7 +1720,7 @@ def replay(ctx, case):
         c["id"], c["twin"] = 2, 1
         todo = [dict(c, id=1, p={k: v for k, v in c["p"].items() if k != "par"}), c]
         todo[0].pop("twin", None)
-        exes = {"san": exes["san"]}
+        exes = {"san": exes["san"]} if "san" in exes else exes
     model, results = evaluate(ctx, exes, mexe, todo, stats, workers=1)
     print("model (head variant): %s" % model[c["id"]])
     for b in exes:
